@@ -575,6 +575,8 @@ func toScenario(sc scenario) gosim.Scenario {
 }
 
 func TestC01(t *testing.T) {
+	// the parent of this process's per-execution OS sandboxes (each removed at its execution's tear-down) goes with the process
+	defer os.Remove(fmt.Sprintf("/dev/shm/verif-c01-%d", os.Getpid()))
 	if p := os.Getenv("VERIF_REPLAY"); p != "" {
 		replay(t, p)
 		return
